@@ -165,7 +165,10 @@ CHECKS["C08"] = dict(
          "append / calculate / purge / recalculate / calculate_index / remove_indicator / add_indicator the Hexital's managers agree with a "
          "bare dictionary of candle managers given the same appends; and in a Hexital without timeframe and lifespan of its own (HA and fill free) every "
          "member timeframe holds, up to readings, the candles of a standalone CandleManager with the member's effective settings built over the "
-         "stream as it was when the timeframe appeared (construction or later add_indicator) and given every later chunk. Tie: the Hexital model run against hexital.Hexital (check_hx). "
+         "stream as it was when the timeframe appeared (construction or later add_indicator) and given every later chunk; end to end for a member B "
+         "without helper series: among any other members on any timeframes, along any program of append / calculate of anything / purge, recalculate, "
+         "calculate_index, remove_indicator aimed at others / add_indicator, B's manager holds candle by candle the timestamps, values and readings of "
+         "a standalone twin given the same candles and calculate() calls. Tie: the Hexital model run against hexital.Hexital (check_hx). "
          "Falsifier: member vs standalone twin fed the same schedule, object/"
          "dict/settings forms, Hexital-level timeframe/fill/lifespan/HA, member timeframes that need not divide one another, base candles unaltered.",
     note="The Hexital model (construction incl. own-timeframe seeding, append and all maintenance operations) is executed against "
